@@ -19,7 +19,7 @@
    was found there on the real code).
 
    [epoch (step s MWaitLeave) = S (epoch s)] says that parsec_context_wait returns in state s. *)
-From PV Require Import Base.Tac Base.ListX CtxWait.CtxWaitDefs CtxWait.CtxWaitProofs.
+From PV Require Import Base.Tac Base.ListX CtxWait.CtxWaitDefs CtxWait.CtxWaitProofs CtxWait.CtxBarrierDefs CtxWait.CtxBarrierProofs.
 Local Open Scope Z_scope.
 
 (* parsec_context_wait returns only when EVERY taskpool given to the context so far — by the
@@ -117,6 +117,107 @@ Theorem C06_running_callback_keeps_context_active : forall decls evs q p,
   nth_error (pools (run decls evs)) q = Some p -> k_st p = STermCb -> 0 < active (run decls evs).
 Proof. exact P_callback_keeps_active. Qed.
 Print Assumptions C06_running_callback_keeps_context_active.
+
+(* ================================================================================================
+   THE REFINED MODEL (CtxBarrierDefs.v): the choreography of __parsec_context_wait thread by thread —
+   n threads (master + n-1 workers) on one barrier (counter + generation): the start barrier of
+   parsec_context_start and the increment of the token after it, the work loop with its test of
+   active_taskpools, the final barrier, the workers' return to the start barrier, the master's leave;
+   every inner event is performed by a thread, which is "inside" what it started until it finished
+   it.  [rrun decls n evs] is the state after ANY interleaving [evs] of barrier steps (RBar t) and
+   inner events performed by a thread (RIn t e).  [pc_of r 0 = TPassed]: the master has been
+   released from the final barrier, its next step is the return of parsec_context_wait.
+   The enabling condition that the model above ASSUMES for MWaitLeave is here a THEOREM
+   (C06_master_released_only_when_done), so the statements below carry no "_partial".
+   What is still abstract: each termination-detector call is one step (C10); the list lock, the
+   communication engine and the communication thread are outside (see the two-rank scenarios). *)
+
+Theorem C06_master_released_only_when_done : forall decls n evs, (1 <= n)%nat ->
+  let r := rrun decls n evs in
+  pc_of r 0 = TPassed ->
+  master (inner r) = MInWait /\ active (inner r) = 0 /\ quiescent (inner r) = true /\
+  (forall t, t <> 0%nat -> pc_of r t <> TLoop).
+Proof. exact P_master_passes_only_when_done. Qed.
+Print Assumptions C06_master_released_only_when_done.
+
+(* 1. parsec_context_wait returns only when everything given to the context is done *)
+Theorem C06_context_wait_returns_when_done : forall decls n evs, (1 <= n)%nat ->
+  let r := rrun decls n evs in
+  pc_of r 0 = TPassed ->
+  forall q p, nth_error (pools (inner r)) q = Some p -> k_added p = true ->
+    k_st p = STerminated /\ all_done p = true /\ norun (k_tasks p) /\ (k_dtd p = false -> k_cb p = 1%nat).
+Proof. exact R_context_wait_returns_when_done. Qed.
+Print Assumptions C06_context_wait_returns_when_done.
+
+(* 2. and it does return: from every reachable state where the master is in the wait, active_taskpools
+   is 0 and every thread is outside tasks, some schedule (barrier steps only) releases the master;
+   no thread is left behind a barrier (C06_barrier_accounting: the counter is exactly the number of
+   threads waiting in the current generation and never all of them) *)
+Theorem C06_context_wait_returns : forall decls n evs, (1 <= n)%nat ->
+  let r := rrun decls n evs in
+  work_done r -> exists sched, pc_of (fold_left rstep sched r) 0 = TPassed.
+Proof. exact P_master_is_released. Qed.
+Print Assumptions C06_context_wait_returns.
+
+Theorem C06_barrier_accounting : forall decls n evs, (1 <= n)%nat ->
+  let r := rrun decls n evs in
+  Z.of_nat (bcnt r) = cnt (wcur (bgen r)) (pcs r) /\ (bcnt r < length (pcs r))%nat.
+Proof. exact P_barrier_accounting. Qed.
+Print Assumptions C06_barrier_accounting.
+
+(* the return itself: the master's next step leaves the wait, the epoch counter advances *)
+Theorem C06_master_returns : forall decls n evs, (1 <= n)%nat ->
+  let r := rrun decls n evs in
+  pc_of r 0 = TPassed ->
+  pc_of (rstep r (RBar 0)) 0 = TOut /\ inner (rstep r (RBar 0)) = step (inner r) MWaitLeave /\
+  epoch (step (inner r) MWaitLeave) = S (epoch (inner r)).
+Proof. exact P_master_returns. Qed.
+Print Assumptions C06_master_returns.
+
+(* 3. parsec_taskpool_wait *)
+Theorem C06_taskpool_wait_returns_when_terminated : forall decls n evs q, (1 <= n)%nat ->
+  let r := rrun decls n evs in
+  master (inner r) = MInTp q -> master (inner (rstep r (RIn 0 (MTpLeave q)))) = MIdle ->
+  exists p, nth_error (pools (inner r)) q = Some p /\ k_st p = STerminated /\ all_done p = true /\ norun (k_tasks p) /\
+            (k_dtd p = false -> k_cb p = 1%nat).
+Proof. exact R_taskpool_wait. Qed.
+Print Assumptions C06_taskpool_wait_returns_when_terminated.
+
+(* 4. callbacks *)
+Theorem C06_callback_once_after_last_task : forall decls n evs q p,
+  nth_error (pools (inner (rrun decls n evs))) q = Some p ->
+  (in_term (k_st p) = true -> all_done p = true /\ norun (k_tasks p)) /\
+  (k_dtd p = false -> k_cb p = if in_term (k_st p) then 1%nat else 0%nat).
+Proof. exact R_callback_once. Qed.
+Print Assumptions C06_callback_once_after_last_task.
+
+(* 5. epochs *)
+Theorem C06_epochs_independent : forall decls n evs, (1 <= n)%nat ->
+  let r := rrun decls n evs in
+  pc_of r 0 = TPassed ->
+  fresh_like (inner (rstep r (RBar 0))) /\ pc_of (rstep r (RBar 0)) 0 = TOut /\
+  (forall t, t <> 0%nat -> pc_of (rstep r (RBar 0)) t <> TLoop).
+Proof. exact R_epochs_independent. Qed.
+Print Assumptions C06_epochs_independent.
+
+(* 6. parsec_context_test *)
+Theorem C06_test_true_means_done : forall decls n evs,
+  let s := inner (rrun decls n evs) in
+  active s = 0 -> forall q p, nth_error (pools s) q = Some p -> k_added p = true ->
+  in_term (k_st p) = true /\ k_st p <> STermCb /\ all_done p = true.
+Proof. exact R_test_true. Qed.
+Print Assumptions C06_test_true_means_done.
+
+(* non-vacuity of the refined model: 3 threads, one PTG taskpool of two tasks run by the two workers,
+   the master passes the final barrier last and returns; second epoch opens *)
+Example C06_example_threads :
+  let r := rrun [DPtg 2] 3
+    [RIn 0 (MAdd 0); RIn 0 MStart; RBar 1; RBar 2; RIn 1 (WStartup 0); RIn 2 (WBegin 0 0); RIn 1 (WStartupDone 0);
+     RBar 0; RIn 1 (WBegin 0 1); RIn 0 MWaitEnter; RIn 2 (WEnd 0 0); RBar 2; RIn 1 (WEnd 0 1); RIn 1 (WCbDone 0);
+     RBar 0; RIn 1 (WFin 0); RBar 2; RBar 1; RBar 0] in
+  pc_of r 0 = TPassed /\ pc_of r 1 = TPassed /\ pc_of r 2 = TWaitE 1 /\ bgen r = 2%nat /\ running r = false /\
+  epoch (inner (rstep r (RBar 0))) = 1%nat /\ ran (inner r) = [2%nat].
+Proof. vm_compute. repeat split. Qed.
 
 (* non-vacuity: two epochs; a PTG taskpool whose task adds a second PTG taskpool while the
    master is in the wait, whose completion callback adds a third; a DTD taskpool that gets a
